@@ -10,4 +10,4 @@ Extraction "model.ml" idl_case idl_oracle parse dump_presult
   decode_call enc_params encode_reply call_schema reply_schema iface_schema info_schema descr_schema
   address_schema resolver_info_schema s_method s_parameter lit_null
   serve_conn spec_conn run_system client_send client_receive dispatch_error helper_of
-  get_info_request get_descr_request call_params new_service register set_running builtin route handle_call.
+  is_error get_info_request get_descr_request call_params new_service register set_running builtin route handle_call.
